@@ -21,7 +21,8 @@ Definition chk (c : N * list (list icell) * list (list ocell) * list (list (opti
 CASE_TYPE = "N * list (list icell) * list (list ocell) * list (list (option N))"
 
 
-def tbl_xml(rows, spelling, nhead=0):
+def tbl_xml(rows, spelling, nhead=0, nested=None):
+    """nested: {cell id: xml table} placed after the cell's paragraph"""
     trs = []
     for i, row in enumerate(rows):
         tcs = []
@@ -33,7 +34,8 @@ def tbl_xml(rows, spelling, nhead=0):
                 pr.append(X("w:vMerge", {"w:val": "restart"}))
             elif kind == "continue":
                 pr.append(X("w:vMerge", {"w:val": "continue"} if spelling.get("explicit_continue") else {}))
-            tcs.append(X("w:tc", {}, [X("w:tcPr", {}, pr), X("w:p", {}, [X("w:r", {}, [X("w:t", {}, [XT(str(cid))])])])]))
+            extra = [nested[cid], X("w:p")] if nested and cid in nested else []
+            tcs.append(X("w:tc", {}, [X("w:tcPr", {}, pr), X("w:p", {}, [X("w:r", {}, [X("w:t", {}, [XT(str(cid))])])])] + extra))
         trpr = [X("w:trPr", {}, [X("w:tblHeader")])] if i < nhead else []
         trs.append(X("w:tr", {}, trpr + tcs))
     return X("w:tbl", {}, [X("w:tblPr"), X("w:tblGrid")] + trs)
@@ -50,10 +52,26 @@ def cell_id(cell):
     return int(cell.children[0].children[0].children[0].value)
 
 
-def html_rows(html):
-    """[(section, [(name, id, colspan, rowspan)])] from the converter's output, via the strict parser."""
-    forest = O.strict_parse(html)
-    (table,) = [n for n in forest if n.get("name") == "table"]
+def first_text(forest):
+    for n in forest:
+        if "text" in n:
+            return n["text"]
+        if n.get("name") != "table":
+            r = first_text(n["children"])
+            if r is not None:
+                return r
+    return None
+
+
+def nested_tables(cell):
+    return [n for n in cell["children"] if n.get("name") == "table"]
+
+
+def html_rows(html, table=None):
+    """[(section, [(name, id, colspan, rowspan, cell node)])] of ONE table of the converter's output, via the strict parser."""
+    if table is None:
+        forest = O.strict_parse(html)
+        (table,) = [n for n in forest if n.get("name") == "table"]
     out = []
 
     def rows_of(parent, section):
@@ -61,13 +79,31 @@ def html_rows(html):
             if n.get("name") == "tr":
                 cells = []
                 for c in n["children"]:
-                    txt = O.text_of_parsed(c["children"])
-                    cells.append((c["name"], int(txt), int(c["attrs"].get("colspan", 1)), int(c["attrs"].get("rowspan", 1))))
+                    txt = first_text(c["children"])
+                    cells.append((c["name"], int(txt), int(c["attrs"].get("colspan", 1)), int(c["attrs"].get("rowspan", 1)), c))
                 out.append((section, cells))
             elif n.get("name") in ("thead", "tbody"):
                 rows_of(n, n["name"])
     rows_of(table, None)
     return out
+
+
+def check_table(node, rows, grid, nhead, R, html=None):
+    """the property's clauses on ONE table of the output (nested tables are checked by the caller)"""
+    hr = html_rows(html, node)
+    if len(hr) != R:
+        return "number of tr elements differs from the number of rows", hr
+    for i, (section, cells) in enumerate(hr):
+        exp_section = None if nhead == 0 else ("thead" if i < nhead else "tbody")
+        exp_name = "th" if i < nhead else "td"
+        if section != exp_section or any(c[0] != exp_name for c in cells):
+            return "header rows are not grouped in thead/th with the rest in tbody/td", hr
+        if [c[1] for c in cells] != [cid for cid, w, kind2 in rows[i] if kind2 != "continue"]:
+            return "cells of a row are not the non-continuation cells in order", hr
+    lay = G.html_layout([[(c[1], c[2], c[3]) for c in cells] for _, cells in hr])
+    if lay != grid:
+        return "HTML layout does not reproduce the document grid", hr
+    return None, hr
 
 
 def run(ctx):
@@ -92,7 +128,22 @@ def run(ctx):
         # header rows: any prefix that no merge crosses
         ok_heads = [h for h in range(0, R + 1) if not any(r < h < r + hh for (r, c, hh, w) in rects)]
         nhead = ctx.rng.choice(ok_heads) if kind == "random" or k % 4 == 0 else 0
-        table = read_table(tbl_xml(rows, spelling, nhead))
+        # nested tables (random stream): a second tiling inside one cell, with its own header rows — also inside header cells
+        nested, nested_info = None, None
+        if kind == "random" and ctx.rng.random() < 0.5:
+            R2, C2 = ctx.rng.randint(1, 3), ctx.rng.randint(1, 3)
+            rects2 = G.random_tiling(ctx.rng, R2, C2)
+            rows2, grid2 = G.encode(rects2, R2, C2)
+            rows2 = [[(cid + 5000, w, kd) for cid, w, kd in row] for row in rows2]
+            grid2 = [[x + 5000 for x in row] for row in grid2]
+            ok2 = [h for h in range(0, R2 + 1) if not any(r < h < r + hh for (r, c, hh, w) in rects2)]
+            nhead2 = ctx.rng.choice(ok2)
+            hosts = [cid for row in rows for cid, w, kd in row if kd != "continue"]
+            host = ctx.rng.choice(hosts)
+            nested = {host: tbl_xml(rows2, spelling, nhead2)}
+            nested_info = (host, rows2, grid2, nhead2, R2)
+            dist["nested"] = dist.get("nested", 0) + 1
+        table = read_table(tbl_xml(rows, spelling, nhead, nested))
         ctx.count()
         obs = [[(cell_id(c), c.colspan, c.rowspan) for c in row.children] for row in table.children]
         if any(h > 1 for (_, _, h, _) in rects):
@@ -107,26 +158,25 @@ def run(ctx):
         bad = None
         res = conversion.convert_document_element_to_html(D.document([table]))
         try:
-            hr = html_rows(res.value)
-            if len(hr) != R:
-                bad = "number of tr elements differs from the number of rows"
-            else:
-                for i, (section, cells) in enumerate(hr):
-                    exp_section = None if nhead == 0 else ("thead" if i < nhead else "tbody")
-                    exp_name = "th" if i < nhead else "td"
-                    if section != exp_section or any(c[0] != exp_name for c in cells):
-                        bad = "header rows are not grouped in thead/th with the rest in tbody/td"
-                    if [c[1] for c in cells] != [cid for cid, w, kind2 in rows[i] if kind2 != "continue"]:
-                        bad = "cells of a row are not the non-continuation cells in order"
-                lay = G.html_layout([[(c[1], c[2], c[3]) for c in cells] for _, cells in hr])
-                if not bad and lay != grid:
-                    bad = "HTML layout does not reproduce the document grid"
+            bad, hr = check_table(None, rows, grid, nhead, R, res.value)
+            if not bad and nested_info:
+                host, rows2, grid2, nhead2, R2 = nested_info
+                cell = [c[4] for _, cells in hr for c in cells if c[1] == host][0]
+                inner = nested_tables(cell)
+                if len(inner) != 1:
+                    bad = "the nested table is missing from its cell"
+                else:
+                    bad, _ = check_table(inner[0], rows2, grid2, nhead2, R2)
+                    if bad:
+                        bad = "nested table: " + bad
         except (ValueError, KeyError) as e:
             bad = "output table is malformed: %s" % e
         if bad:
             ctx.violation("oracle", bad, {"api": "body_xml.reader().read_all + convert_document_element_to_html",
                                           "R": R, "C": C, "rects": rects, "spelling": spelling, "nhead": nhead,
-                                          "observed_html": res.value[:600]}, True)
+                                          "nested": None if not nested_info else {"host": nested_info[0], "rows": nested_info[1], "grid": nested_info[2],
+                                                                                  "nhead": nested_info[3], "R": nested_info[4]},
+                                          "observed_html": res.value[:900]}, True)
             if len(ctx.violations) > 10:
                 break
         if k < 3 or (kind == "random" and len(ctx.coverage["samples"]) < 5):
@@ -150,13 +200,19 @@ def run(ctx):
 def replay(ctx, rep):
     r = rep["replay"]
     rows, grid = G.encode([tuple(x) for x in r["rects"]], r["R"], r["C"])
-    table = read_table(tbl_xml(rows, r["spelling"], r["nhead"]))
+    nested = None
+    if r.get("nested"):
+        n = r["nested"]
+        nested = {n["host"]: tbl_xml([[tuple(c) for c in row] for row in n["rows"]], r["spelling"], n["nhead"])}
+    table = read_table(tbl_xml(rows, r["spelling"], r["nhead"], nested))
     res = conversion.convert_document_element_to_html(D.document([table]))
     try:
-        hr = html_rows(res.value)
-        lay = G.html_layout([[(c[1], c[2], c[3]) for c in cells] for _, cells in hr])
-        bad = lay != grid
-    except Exception:
-        bad = True
-    print("replay:", "violated" if bad else "property holds on this input")
+        bad, hr = check_table(None, rows, grid, r["nhead"], r["R"], res.value)
+        if not bad and nested:
+            n = r["nested"]
+            cell = [c[4] for _, cells in hr for c in cells if c[1] == n["host"]][0]
+            bad, _ = check_table(nested_tables(cell)[0], [[tuple(c) for c in row] for row in n["rows"]], n["grid"], n["nhead"], n["R"])
+    except Exception as e:
+        bad = repr(e)
+    print("replay:", bad or "property holds on this input")
     return 1 if bad else 0
